@@ -105,8 +105,8 @@ EventBlocks ==
                        MaxItems) }
 
 HeaderVals == { [signature |-> 1, version |-> 401, nEntries |-> 402, cdate |-> 403, mdate |-> 404, adate |-> 405] }
-EntryVals  == { [type |-> 411, format |-> 412, offset |-> 413, size |-> 414, cdate |-> 415, mdate |-> 416,
-                 adate |-> 417, comment |-> 50 + c] : c \in 1..2 }
+EntryVals  == { [type |-> ty, format |-> 412, offset |-> 413, size |-> 414, cdate |-> 415, mdate |-> 416,
+                 adate |-> 417, comment |-> 50 + c] : c \in 1..2, ty \in {0, 5, 16} }
 
 Formats(k) == CASE k = "Data3D" -> {1, 2} [] k = "CalibrationData" -> {1, 2}
                 [] k \in {"ForcePlatformsCalibration", "Data2D"} -> {2} [] OTHER -> {1}
